@@ -155,15 +155,10 @@ Qed.
 
 (* ------------------------------------------------------------------ sizes, ids, size symbols *)
 
-Fixpoint lsum (l : list nat) : nat := match l with [] => O | x :: r => (x + lsum r)%nat end.
 Lemma lsum_app : forall a b, lsum (a ++ b) = (lsum a + lsum b)%nat.
 Proof. induction a as [|x a IH]; intros b; cbn; [reflexivity|]. rewrite IH. lia. Qed.
 Lemma list_sum_lsum : forall l, list_sum l = lsum l.
 Proof. induction l as [|x l IH]; cbn; [reflexivity|]. rewrite <- IH. reflexivity. Qed.
-Definition items_size (its : list item) : nat := lsum (map item_size its).
-Definition ids (its : list item) : list nat := flat_map item_id its.
-Definition dyns (its : list item) : list (nat * list nat) := flat_map dyn_of_item its.
-Definition dpair (d : dynp) : nat * list nat := (d_id d, d_sizes d).
 
 Lemma items_size_app : forall a b, items_size (a ++ b) = (items_size a + items_size b)%nat.
 Proof. intros. unfold items_size. rewrite map_app, lsum_app. reflexivity. Qed.
